@@ -19,10 +19,10 @@ RULE = ('pairs of magnitudes with/without absolute uncertainty, of either sign, 
         'operand; distinct by (op, signs, shapes, which side is uncertain, units)')
 SHARDS = {'quick': 16, 'thorough': 16}
 MIN_NONTRIVIAL = {'quick': 5000, 'thorough': 120000}
-REQUIRED_CLASSES = ['relative-uncertainty-input', 'relative-uncertainty-on-negative-value', 'relative-uncertainty-ctor', 'relative-uncertainty-setter', 'relative-uncertainty-through-magnitude-object', 'cancelling-units-collapse', 'quantity-ops-same-dimension-other-unit', 'mag:add', 'mag:sub', 'mag:mul', 'mag:truediv', 'mag:pow', 'mag:neg', 'exact-partner-negative', 'exact-partner-left',
+REQUIRED_CLASSES = ['decimal-exact-plus-uncertain-float', 'relative-uncertainty-input', 'relative-uncertainty-on-negative-value', 'relative-uncertainty-ctor', 'relative-uncertainty-setter', 'relative-uncertainty-through-magnitude-object', 'cancelling-units-collapse', 'quantity-ops-same-dimension-other-unit', 'mag:add', 'mag:sub', 'mag:mul', 'mag:truediv', 'mag:pow', 'mag:neg', 'exact-partner-negative', 'exact-partner-left',
                     'both-uncertain-positive', 'both-exact', 'array', 'scalar', 'negative-exponent', 'quantity-conversion',
                     'quantity-mixed-unit-sum', 'quantity-ops', 'repo-tests-under-contracts', 'value-query-then-reuse', 'sum-evaluated-twice']
-REQUIRED_MONITORS = ['contract:Magnitude._add', 'contract:Magnitude._sub', 'contract:Magnitude._mul', 'contract:Magnitude._truediv',
+REQUIRED_MONITORS = ['decimal_sum_compares', 'contract:Magnitude._add', 'contract:Magnitude._sub', 'contract:Magnitude._mul', 'contract:Magnitude._truediv',
                      'contract:Magnitude.__pow__', 'contract:Magnitude.__neg__', 'contract:UnitType.convert',
                      'contract:UnitType.convert:linear-with-uncertainty', 'relative_input_compares', 'relative_input_result_nonneg_compares', 'conversion_scaling_compares', 'collapse_scaling_compares', 'quantity_result_relative_uncertainty_compares', 'mixed_sum_compares', 'value_query_uncertainty_compares',
                      'repo_tests_contract_evaluations']
@@ -120,7 +120,12 @@ def cases(rng, tier, shard, nshards, ctx):
             yield dict(t='rel', level=rng.choice(['M', 'Q']), how=rng.choice(['ctor', 'setter']), x=x, p=rng.choice([1, 5, 10, 0.5, 20]), u=rng.choice(FAM[fam]),
                        v=rng.choice(FAM[fam]), op=rng.choice(['none', 'add', 'sub', 'mul', 'truediv', 'neg', 'pow', 'mulnum', 'to']),
                        y=gv(rng, False), ey=ge(rng, 1.0) if rng.random() < 0.6 else None, k=rng.choice([-3.0, 2.0, -0.5, 4]), through_magnitude=rng.random() < 0.4)
-        elif r < 0.89:
+        elif r < 0.89 and r >= 0.875:
+            # an exact Decimal operand and an uncertain float operand under + and -: the sum carries the uncertain operand's uncertainty
+            fam = rng.choice(list(FAM))
+            yield dict(t='decsum', level=rng.choice(['M', 'Q', 'Q']), ua=rng.choice(FAM[fam]), ub=rng.choice(FAM[fam]), dec=rng.choice(['1.5', '20', '-3.25', '0.001']),
+                       yb=gv(rng, False), eyb=ge(rng, 1.0), sign=rng.choice([1, -1]), decimal_side=rng.choice(['left', 'right']))
+        elif r < 0.875:
             fam = rng.choice(list(FAM))
             u, v = rng.sample(FAM[fam], 2)
             x = gv(rng, arr)
@@ -342,6 +347,24 @@ def _run(case, ctx):
                 # the operands' own (negative) uncertainty explains a negative result only through the recorded mechanism
                 devs.append(dev('negative-uncertainty-in-result-of-%s' % op, dict(x=x, percent=pct, op=op, result_abse=re_),
                                 known=negkey if (ae is not None and any(o < 0 for o in ae)) else None))
+        elif t == 'decsum':
+            from decimal import Decimal
+            classes += ['decimal-exact-plus-uncertain-float', 'decimal-on-the-' + case['decimal_side'], 'scalar']
+            uncertain = True
+            D = Decimal(case['dec'])
+            if case['level'] == 'M':
+                d_, u_ = M(D), M(case['yb'], abse=case['eyb'])
+                exp_e = case['eyb']
+            else:
+                d_, u_ = Q(D, case['ua']), Q(case['yb'], case['ub'], abse=case['eyb'])
+                # the result is in the LEFT operand's unit
+                exp_e = case['eyb'] * (F[case['ub']] / F[case['ua']] if case['decimal_side'] == 'left' else 1.0)
+            Lq, Rq = (d_, u_) if case['decimal_side'] == 'left' else (u_, d_)
+            res = (Lq + Rq) if case['sign'] > 0 else (Lq - Rq)
+            mon['decimal_sum_compares'] = 1
+            ae = res.abse() if hasattr(res, 'abse') else res.error
+            if ae is None or not close(float(ae), exp_e, 1e-9):
+                devs.append(dev('sum-with-exact-decimal-operand-loses-or-changes-the-uncertainty', dict(case=case, observed=None if ae is None else float(ae), expected=exp_e)))
         elif t == 'qcollapse':
             # a quantity written in units that cancel (km/m, kJ/J, h*s-1) is folded into a pure number: value and absolute
             # uncertainty are scaled by the same factor
